@@ -47,7 +47,7 @@ Section Machine.
     | Some f =>
         let lg' := lg ++ [EVisit p ky (erase v)] in
         match f p ky (erase v) with
-        | Some a => inl (apply_action OLeaf a ky v, lg')
+        | Some a => inl (apply_action oval a ky v, lg')
         | None => if reraise then inr lg' else inl (Some (ky, v), lg')
         end
     end.
